@@ -1019,6 +1019,15 @@ fn process(idx: u64, cls: &str, fill: &str, b: &[u8], cfg: &Cfg, sk: &mut Sinks,
             Err(_) => re_out = "nothex",
         }
     }
+    // serde_json writes a NaN / infinite float as `null`: re-read both structs with the probe
+    // serializer, which reports the path of every float that is not finite (None stays None)
+    let probe_of = |v: &dyn Fn(&mut Probe) -> bool| -> (i64, Vec<String>, bool) {
+        let mut pr = Probe::default();
+        let ok = catch_unwind(AssertUnwindSafe(|| v(&mut pr))).unwrap_or(false);
+        (pr.nonfinite.len() as i64, pr.nonfinite, ok)
+    };
+    let (hid, hid_paths, probe_ok) = if ser == "ok" { probe_of(&|pr| m.serialize(pr).is_ok()) } else { (0, vec![], true) };
+    let (hid_t, hid_t_paths, probe_t_ok) = if ser_t == "ok" { probe_of(&|pr| tm.serialize(pr).is_ok()) } else { (0, vec![], true) };
     if ser != "ok" || ser_t != "ok" {
         let key: String = (if ser != "ok" { js.clone() } else { jst.clone() }).chars().take(80).collect();
         *sk.ser_errs.entry(key).or_insert(0) += 1;
@@ -1033,6 +1042,8 @@ fn process(idx: u64, cls: &str, fill: &str, b: &[u8], cfg: &Cfg, sk: &mut Sinks,
         "dups": lex.dups, "nonfinite": lex.nonfinite,
         "t_parsed": lex_t.parsed, "t_top_obj": lex_t.top_obj, "t_trailing": lex_t.trailing, "t_newlines": lex_t.newlines,
         "t_dups": lex_t.dups, "t_nonfinite": lex_t.nonfinite,
+        "hidden_nf": hid, "t_hidden_nf": hid_t, "probe_ok": probe_ok && probe_t_ok,
+        "nf_paths": hid_paths.iter().chain(hid_t_paths.iter()).take(6).cloned().collect::<Vec<String>>(),
         "dupkeys": lex.dup_keys.iter().chain(lex_t.dup_keys.iter()).take(4).cloned().collect::<Vec<String>>(),
         "df": df_c, "df_t": df_t, "icao": ic_c, "icao_t": ic_t,
         "tdf": tdf_c, "tdf_t": tdf_t, "ticao": tic_c, "ticao_t": tic_t,
@@ -1052,15 +1063,8 @@ fn process(idx: u64, cls: &str, fill: &str, b: &[u8], cfg: &Cfg, sk: &mut Sinks,
         let mut fl = Flat { leaves: vec![], null_paths: vec![], bool_paths: vec![] };
         flatten(tree, "", &mut vec![], &mut fl);
         // nulls: None or a non-finite float?  re-read the struct
-        let mut nf_paths: Vec<String> = vec![];
-        if !fl.null_paths.is_empty() {
-            let mut pr = Probe::default();
-            let ok = catch_unwind(AssertUnwindSafe(|| m.serialize(&mut pr).is_ok())).unwrap_or(false);
-            sk.nulls += fl.null_paths.len() as u64;
-            if ok {
-                nf_paths = pr.nonfinite.clone();
-            }
-        }
+        sk.nulls += fl.null_paths.len() as u64;
+        let nf_paths: Vec<String> = if probe_ok { hid_paths.clone() } else { vec![] };
         // structure signature (set of paths with their kinds)
         let mut sig: Vec<String> = fl.leaves.iter().map(|(_, p, v)| format!("{p}:{}", v["t"].as_str().unwrap_or("?"))).collect();
         sig.extend(fl.null_paths.iter().map(|p| format!("{p}:null")));
